@@ -46,6 +46,20 @@ class Frame:
     base_loops: int = 0
     base_kills: int = 0
     call_site: Optional[Site] = None
+    yields: Any = None          # generator function: the list of what it yields, in order
+
+
+def _is_generator_body(body) -> bool:
+    """a yield in the body itself (not in a nested function or lambda)"""
+    stack = list(body)
+    while stack:
+        n = stack.pop()
+        if isinstance(n, (ast.Yield, ast.YieldFrom)):
+            return True
+        if isinstance(n, (ast.FunctionDef, ast.AsyncFunctionDef, ast.Lambda, ast.ClassDef)):
+            continue
+        stack.extend(ast.iter_child_nodes(n))
+    return False
 
 
 SINKS = {"append_z3_assertion", "append_z3_list_of_assertions"}
@@ -453,6 +467,30 @@ class Interp(ExprMixin):
             if st.orelse:
                 self.exec_block(st.orelse)
             return None
+        if itc is not None and itc[0] == "call" and itc[1] == "enumerate" and isinstance(target, (ast.Tuple, ast.List)) \
+                and len(target.elts) == 2 and ((len(itc[2]) == 2 and not itc[3]) or (len(itc[2]) == 1 and len(itc[3]) == 1 and itc[3][0][0] == "start")) \
+                and isinstance(itc[2][0], tuple) and itc[2][0] and (itc[2][0][0] in ("sym", "attr", "idx") or itc[2][0][:2] in (("call", "list"), ("call", "tuple"))):
+            # for p, x in enumerate(X, start=c): the index loop `for i in range(len(X)): p = i + c; x = X[i]`
+            X = itc[2][0]
+            c = itc[2][1] if len(itc[2]) == 2 else itc[3][0][1]
+            loop = self.new_loop("for", ("range", K(0), ("call", "len", (X,), ())), st)
+            self._run_loop(st, loop, loop[3], None,
+                           pre_bind=lambda: (self.assign(target.elts[0], app("+", ("elem", loop), c), target),
+                                             self.assign(target.elts[1], ("idx", X, ("elem", loop)), target)),
+                           extra_assigned=[n_.id for n_ in ast.walk(target) if isinstance(n_, ast.Name)])
+            if st.orelse:
+                self.exec_block(st.orelse)
+            return None
+        fw_ = self._forward_slice_as_range(it)
+        if fw_ is not None:
+            # for v in X[a:]: the index loop `for i in range(a, len(X)): v = X[i]`
+            rng_, base_ = fw_
+            loop = self.new_loop("for", rng_, st)
+            self._run_loop(st, loop, rng_, None, pre_bind=lambda: self.assign(target, ("idx", base_, ("elem", loop)), st),
+                           extra_assigned=[n_.id for n_ in ast.walk(target) if isinstance(n_, ast.Name)])
+            if st.orelse:
+                self.exec_block(st.orelse)
+            return None
         rv_ = self._reversed_slice_as_range(it)
         if rv_ is not None:
             # for v in X[a::-1]: the index loop `for i in range(a, -1, -1): v = X[i]` - one spelling for walking a sequence backwards
@@ -683,6 +721,31 @@ class Interp(ExprMixin):
                 init = heap_before.get(k, UNBOUND)
                 self.heap[k] = ("loopout", k[1], loop, self.to_term(init), self.to_term(v))
 
+    def _forward_slice_as_range(self, it):
+        """X[a:] with a known to be non-negative (a constant, or positions of index loops that start at 0 or later plus a
+        non-negative constant) as (range(a, len(X)), X)"""
+        from .decide import lin, norm
+        t = it if isinstance(it, tuple) else None
+        if t is None or len(t) != 3 or t[0] != "idx" or not (isinstance(t[2], tuple) and t[2] and t[2][0] == "slice"):
+            return None
+        lo, hi, st_ = t[2][1], t[2][2], t[2][3]
+        if hi != NONE or st_ not in (NONE, K(1)) or lo == NONE or not isinstance(t[1], tuple) \
+                or not (t[1][0] in ("sym", "attr") or t[1][:2] in (("call", "list"), ("call", "tuple"))):
+            return None
+        try:
+            l = lin(norm(lo))
+        except Exception:
+            return None
+        if l.const < 0:
+            return None
+        for term, coef in l.coef.items():
+            ok = coef > 0 and isinstance(term, tuple) and term[0] == "elem" and isinstance(term[1], tuple) and term[1][0] == "loop" \
+                and isinstance(term[1][3], tuple) and term[1][3][0] == "range" and is_const(term[1][3][1]) \
+                and isinstance(term[1][3][1][1], int) and term[1][3][1][1] >= 0 and (len(term[1][3]) == 3 or term[1][3][3] == K(1))
+            if not ok:
+                return None
+        return ("range", lo, ("call", "len", (t[1],), ())), t[1]
+
     def _reversed_slice_as_range(self, it):
         """X[a:b:-1] (a, b integer constants or absent) as (range(a', b', -1), X): a' = a (len + a when negative, len - 1 when
         absent), b' = b (len + b when negative, -1 when absent)"""
@@ -797,7 +860,8 @@ class Interp(ExprMixin):
 
     def s_FunctionDef(self, st):
         self.frame.env[st.name] = Closure(st, self.frame.module, self.frame.env, self_obj=self.frame.self_obj,
-                                          cls=self.frame.cls, qual=f"{self.frame.qual}.{st.name}")
+                                          cls=self.frame.cls, qual=f"{self.frame.qual}.{st.name}",
+                                          outer=tuple(self.frame.closure_envs))
         return None
 
     def s_ClassDef(self, st):
@@ -913,6 +977,12 @@ class Interp(ExprMixin):
             return self.call_ext(ft[1], args, kwargs, node)     # an external function that travelled through a tuple / dict
         if ft[0] == "z3func":
             return app("apply", ft, *[self.to_term(a) for a in args])
+        if ft[0] == "attr" and ft[2] == "update" and len(args) == 1 and not kwargs and isinstance(args[0], PyDict) \
+                and args[0].entries and all(not lp_ and not gd_ for (_k, _v, lp_, gd_) in args[0].entries):
+            # d.update({k: v, ...}) with the pairs written in the source is d[k] = v, ... in that order
+            for (k_, v_, _lp, _gd) in args[0].entries:
+                self.event("store", {"container": ft[1], "key": k_, "value": self.to_term(v_)}, node)
+            return NONE
         if ft[0] == "attr":
             # method of an object whose class is not resolved
             r = ("mcall", ft[1], ft[2], tuple(self.to_term(a) for a in args),
@@ -952,7 +1022,39 @@ class Interp(ExprMixin):
         lp = self.new_loop("comp", v, node)
         return [(("elem", lp), (lp,), ())]
 
+    def _synth_comprehension(self, source, bindings, node):
+        """evaluates a comprehension written here (one spelling for map / filter / filterfalse) with the given names bound"""
+        comp = ast.parse(source, mode="eval").body
+        for sub_ in ast.walk(comp):
+            ast.copy_location(sub_, node)
+        saved = self.frame.env
+        self.frame.env = dict(saved)
+        self.frame.env.update(bindings)
+        try:
+            return self._comprehension(comp, comp.elt)
+        finally:
+            self.frame.env = saved
+
     def call_ext(self, dotted, args, kwargs, node):
+        if dotted in ("itertools.filterfalse", "filterfalse") and len(args) == 2 and not kwargs \
+                and (args[0] == NONE or not isinstance(args[0], tuple)):
+            if args[0] == NONE:
+                return self._synth_comprehension("[__x for __x in __it if not __x]", {"__it": args[1]}, node)
+            return self._synth_comprehension("[__x for __x in __it if not __f(__x)]", {"__f": args[0], "__it": args[1]}, node)
+        if dotted in ("operator.attrgetter", "attrgetter", "operator.itemgetter", "itemgetter") and len(args) == 1 and not kwargs \
+                and is_const(self.to_term(args[0])):
+            # attrgetter("a") is lambda o: o.a ; itemgetter(k) is lambda o: o[k]
+            key = self.to_term(args[0])[1]
+            if dotted.endswith("attrgetter") and isinstance(key, str) and key.isidentifier():
+                lam = ast.parse(f"lambda __o: __o.{key}", mode="eval").body
+            elif dotted.endswith("itemgetter") and isinstance(key, (int, str)):
+                lam = ast.parse(f"lambda __o: __o[{key!r}]", mode="eval").body
+            else:
+                lam = None
+            if lam is not None:
+                for sub_ in ast.walk(lam):
+                    ast.copy_location(sub_, node)
+                return Closure(lam, self.frame.module, {}, qual=f"{self.frame.qual}.<{dotted.split('.')[-1]}>")
         if dotted in ("itertools.chain.from_iterable", "chain.from_iterable") and len(args) == 1 and not kwargs \
                 and self._known_items(args[0]) is not None:
             # the concatenation of the written sub-iterables: every element of every one of them, in order
@@ -1061,6 +1163,13 @@ class Interp(ExprMixin):
                 for val, _lp, _gd in self._known_items(args[1]):
                     out.items.append(Item(self.call(args[0], [val], [], node)))
                 return out
+            if b == "map" and len(args) == 2 and not tkw and not isinstance(args[0], tuple):
+                # map(f, xs) with a function known here: the generator (f(x) for x in xs), one spelling
+                return self._synth_comprehension("[__f(__x) for __x in __it]", {"__f": args[0], "__it": args[1]}, node)
+            if b == "filter" and len(args) == 2 and not tkw and (args[0] == NONE or not isinstance(args[0], tuple)):
+                if args[0] == NONE:
+                    return self._synth_comprehension("[__x for __x in __it if __x]", {"__it": args[1]}, node)
+                return self._synth_comprehension("[__x for __x in __it if __f(__x)]", {"__f": args[0], "__it": args[1]}, node)
             if b in ("any", "all") and len(targs) == 1 and not tkw and targs[0][0] in ("list", "tuple") \
                     and all(not (isinstance(i, tuple) and i and i[0] == "each") for i in targs[0][1]):
                 # over items known from the source: the conjunction / disjunction of their truth values
@@ -1274,6 +1383,15 @@ class Interp(ExprMixin):
                 return ("unk", "recursion")
         self.push_frame(fr)
         try:
+            if isinstance(body, list) and _is_generator_body(body):
+                # a generator function: what it yields, in order (consumed by the caller as a list written here; the values
+                # of `return` statements of a generator are not results)
+                fr.yields = PyList(base_loops=self.loops, base_guards=self.eff_guards())
+                try:
+                    self.exec_block(body)
+                except _Return:
+                    pass
+                return fr.yields
             try:
                 if isinstance(body, ast.expr):
                     return self.eval(body)
@@ -1308,12 +1426,12 @@ class Interp(ExprMixin):
             return r
         if isinstance(fn, ast.Lambda):
             env, _ = self.bind_params(fn, args, kwargs, node)
-            fr = Frame(c.module, qual, env, self_obj=c.self_obj, cls=c.cls, closure_envs=[c.env],
+            fr = Frame(c.module, qual, env, self_obj=c.self_obj, cls=c.cls, closure_envs=[c.env] + list(c.outer),
                        call_site=self.site(node))
             self.closure_frames[qual] = fr
             return self.run_body(fr, fn.body)
         env, _ = self.bind_params(fn, args, kwargs, node)
-        fr = Frame(c.module, qual, env, self_obj=c.self_obj, cls=c.cls, closure_envs=[c.env] if c.env else [],
+        fr = Frame(c.module, qual, env, self_obj=c.self_obj, cls=c.cls, closure_envs=([c.env] if c.env else []) + list(c.outer),
                    call_site=self.site(node))
         self.closure_frames[qual] = fr
         return self.run_body(fr, fn.body)
